@@ -29,9 +29,10 @@ import sys
 import common
 import resolvegen
 import resolvelib as rl
+import srcobl
 
 ID = 'C06'
-LEAN_MODULES = ['Yaql.Props.C06', 'Yaql.Props.C06Reg', 'Yaql.Props.C06Ctx']
+LEAN_MODULES = ['Yaql.Props.C06', 'Yaql.Props.C06Reg', 'Yaql.Props.C06Ctx'] + srcobl.modules('C06')   # Props/SrcResolve
 P = 'Yaql.Props.C06.'
 REQUIRED_THEOREMS = [P + n for n in (
     'perm_invariant', 'spec_perm_invariant', 'old_order_dependent', 'old_tuple_order_dependent',
@@ -42,7 +43,13 @@ REQUIRED_THEOREMS = [P + n for n in (
     'Yaql.Props.C06Ctx.' + n for n in (
         'run_nodup', 'ownLayerL_members_perm', 'resolve_members_perm_invariant',
         'resolve_child_of_members_perm_invariant', 'resolve_multi_register_perm_invariant',
-        'keyed_merge_order_dependent')]
+        'keyed_merge_order_dependent')] + srcobl.theorems('C06')
+
+
+def generate():
+    return srcobl.generate('C06')     # re-translate runner._is_specialization_of
+
+
 TRUSTED = ['resolvelib.ListContext: the enumeration order of a layer is what its get_functions returns',
            'resolvelib.enc_fd / enc_arg (encoding of the real objects for the model)',
            'the reading of exclusive=True: a layer is exclusive for a name when ANY registration of that name in it said '
